@@ -86,7 +86,32 @@ func PropC16(c *vs.Case, f Factory) error {
 	steps := 2 + c.Int(4)
 	for s := 0; s < steps; s++ {
 		edited := false
-		switch c.Weighted(5, 2, 2, 1, 1, 1, 1) {
+		switch c.Weighted(5, 2, 2, 1, 1, 1, 1, 1) {
+		case 7: // someone else's finalizer comes or goes on the live target
+			env.W.Sim.ExtUpdate(scn.Cfg.ParentResource, scn.ParentNS(), scn.ParentName(), func(o map[string]any) {
+				m := metaOfMap(o)
+				fs, _ := m["finalizers"].([]any)
+				var keep []any
+				had := false
+				for _, f := range fs {
+					if f == "example.com/other" {
+						had = true
+						continue
+					}
+					keep = append(keep, f)
+				}
+				if !had {
+					keep = append(keep, "example.com/other")
+				}
+				if len(keep) == 0 {
+					delete(m, "finalizers")
+				} else {
+					m["finalizers"] = keep
+				}
+			})
+			log = append(log, "foreign finalizer toggled on the live target")
+			c.Class("foreign-finalizer-toggled")
+			edited = true
 		case 5: // the user deletes the target (it lingers while finalizers hold it)
 			if cur := env.Parent(); cur != nil && !IsDeleting(cur) {
 				env.W.Sim.ExtDelete(scn.Cfg.ParentResource, scn.ParentNS(), scn.ParentName(), "")
